@@ -97,7 +97,7 @@ fn valid_method(s: &[u32]) -> bool { s == cps_str("<init>") || s == cps_str("<cl
 fn names_textual(r: &NamesRow, valid: fn(&[u32]) -> bool) -> bool {
 	r.iter().all(|o| match o { Some(s) => cell_ok(s) && scalar_only(s) && valid(s), None => true })
 }
-fn desc_ok(s: &[u32]) -> bool { no_tab_lf(s) && scalar_only(s) }
+fn desc_ok(s: &[u32]) -> bool { cell_ok(s) && scalar_only(s) }
 fn textual(m: &MMappings) -> bool {
 	m.ns.iter().all(|s| cell_ok(s)) && m.classes.iter().all(|c| names_textual(&c.names, valid_class)
 		&& c.fields.iter().all(|f| desc_ok(&f.desc) && names_textual(&f.names, unq))
@@ -316,11 +316,10 @@ fn through_text(r: &mut Report, rng: &mut Rng, n: usize, text: &str, stream: &st
 
 pub fn run(ctx: &Ctx) -> anyhow::Result<Report> {
 	let mut r = Report::new("C03", "C03.Run");
-	r.shard_size = 400;
 	let mut rng = Rng::new(ctx.seed);
 	let mut tally = Tally { in_hyp: 0, out_hyp: 0 };
 	let (n_valid, orders, n_viol, n_mut, n_raw) = if ctx.thorough { (2400, 24, 1500, 6000, 3000) } else { (330, 4, 240, 900, 500) };
-	r.rule = format!("mapping sets with n in {{2,3,4}} namespaces from mapmodel::gen_mappings (0-6 classes, 0-4 fields and methods, 0-3 parameters, every 8th set up to 12/6/4; absent cells 1/3 or 3/4; $-nested, packaged, non-BMP names; parameter indices up to u64::MAX) with comments of 22 kinds plus random ones over {{backslash,n,t,r,LF,TAB,CR}} on every level including the mappings' own; each written, read back, re-written, and written again in {orders} other insertion orders (oracle: read(write M) = M up to order, equal text for every order, write(read(write M)) = write M). Streams outside the hypotheses: one damaged cell (TAB/LF/CR/invalid characters/surrogates/empty descriptor), trees whose infos lost their first name or duplicate another class. Reader: written texts with one of 24 line-level mutations, random token soup, wrong namespace count; every text that reads is put through the round trip again. Non-trivial: at least one class and the round trip succeeded (texts: read Ok with at least one class); distinct by canonical mapping set / by text.");
+	r.rule = format!("mapping sets with n in {{2,3,4}} namespaces from mapmodel::gen_mappings (0-6 classes, 0-4 fields and methods, 0-3 parameters, every 8th set up to 12/6/4; absent cells 1/3 or 3/4; $-nested, packaged, non-BMP names; parameter indices up to u64::MAX) with comments of 22 kinds plus random ones over {{backslash,n,t,r,LF,TAB,CR}} on every level including the mappings' own; each written, read back, re-written, and written again in {orders} other insertion orders (oracle: read(write M) = M up to order, equal text for every order, write(read(write M)) = write M). Streams outside the hypotheses: one damaged cell (TAB/LF/CR/invalid characters/surrogates/empty descriptor), trees whose infos lost their first name or duplicate another class. Reader: written texts with one of 24 line-level mutations, random token soup, wrong namespace count, hand-written header edge cases, and EVERY sequence of up to {} lines out of 16 line shapes (each tag at indentation 0..4) below a header; every text that reads is put through the round trip again. Non-trivial: at least one class and the round trip succeeded (texts: read Ok with at least one class); distinct by canonical mapping set / by text.", if ctx.thorough { 4 } else { 3 });
 
 	// 0. fixed inputs: the repository's fixtures and the two repaired defects
 	for (n, path) in [(2, "/repo/quill/tests/read_file_input_tiny_v2.txt"), (2, "/repo/quill/tests/remove_dummy_input.tiny"), (2, "/repo/quill/tests/remove_dummy_output.tiny"),
@@ -384,8 +383,55 @@ pub fn run(ctx: &Ctx) -> anyhow::Result<Report> {
 		let t = raw_text(&mut rng);
 		through_text(&mut r, &mut rng, 2, &t, "raw", "soup", &mut tally);
 	}
+	// 4. the nested iterator, exhaustively: every sequence of up to `depth` lines out of 16 line
+	// shapes (every tag at every indentation 0..4, duplicates, comments, empty line) below a header
+	{
+		let shapes: [&str; 16] = ["c\tA\tB", "c\tA\tC", "c\tD\t", "\tf\tI\tx\ty", "\tm\t()V\tx\ty", "\t\tp\t0\t\tq", "\tc\tdoc", "\t\tc\tdoc", "\t\t\tc\tdoc",
+			"x", "\tx\ty", "\t\tx", "\t\t\tx", "\t\t\t\tc\tdeep", "", "\tp\t1\t\tq"];
+		let depth = if ctx.thorough { 4 } else { 3 };
+		let mut idx: Vec<usize> = vec![];
+		loop {
+			let mut t = String::from("tiny\t2\t0\ta\tb\n");
+			for &i in &idx { t.push_str(shapes[i]); t.push('\n'); }
+			let rr = impl_read(2, &t);
+			r.case("enum", format!("CRead 2 {} {}", hstr(&cps_str(&t)), g_rres(&rr)));
+			match &rr {
+				Err(p) => r.violation(format!("read panicked: {p}"), replay("read panicked", None, Some(&t), "")),
+				Ok(None) => r.count("enum=Err"),
+				Ok(Some((m2, _))) => { r.count("enum=Ok"); if !wf(m2) { r.violation("read returned a mapping set that is not well-formed".into(), replay("read result not well-formed", Some(m2), Some(&t), "")); } }
+			}
+			r.eval_distinct(matches!(&rr, Ok(Some((m2, _))) if m2.size() > 0));
+			// next sequence (shorter ones first within the odometer order)
+			let mut p = idx.len();
+			loop {
+				if p == 0 { idx = vec![0; idx.len() + 1]; break; }
+				p -= 1;
+				idx[p] += 1;
+				if idx[p] < shapes.len() { break; }
+				idx[p] = 0;
+			}
+			if idx.len() > depth { break; }
+		}
+	}
+	// 5. hand-written edge cases of the header and its sub-section
+	for (n, t) in [(2usize, ""), (2, "\n"), (2, "tiny\t2\t0\ta\tb"), (2, "tiny\t2\t0\ta\tb\n"), (1, "tiny\t2\t0\ta\n"), (2, "tiny\t2\t0\ta\t\n"), (2, "tiny\t2\t0\ta\tb\r\n"), (2, "tiny\t2\t0\ta\tb\r"),
+		(2, "tiny\t2\t0\ta\tb\n\tc\ttop\n"), (2, "tiny\t2\t0\ta\tb\n\tc\ttop\n\tc\tagain\n"), (2, "tiny\t2\t0\ta\tb\n\tprop\tvalue\n\tc\ttop\n\tother\nc\tA\tB\n"),
+		(2, "tiny\t2\t0\ta\tb\n\tc\ttop\n\t\tx\n"), (2, "tiny\t2\t0\ta\tb\n\t\tc\ttop\n"), (2, "tiny\t2\t0\ta\tb\nc\tA\tB\n\tc\tclass doc\n"), (2, "tiny\t2\t0\ta\tb\n\tc\n"), (2, "tiny\t2\t0\ta\tb\n\tc\ta\tb\n"),
+		(2, "\t\ttiny\t2\t0\ta\tb\n\tc\tx\\ny\\\\z\\q\\\n"), (3, "tiny\t2\t0\ta\tb\tc\nc\t\tB\tC\n"), (3, "tiny\t2\t0\ta\tb\tc\nc\tA\t\t\n\tm\t\tx\t\t\n\t\tp\t007\t\t\t\n"),
+		(2, "tiny\t2\t0\ta\tb\nc\tA\tB\nc\tA\tB\n"), (2, "tiny\t2\t0\ta\ta\nc\tA\tA\n\tf\tI\tx\tx\n\tf\tJ\tx\tx\n\tm\tI\tx\tx\n"), (2, "tiny\t2\t1\ta\tb\n"), (2, "tiny\t2\n"), (2, "tiny\n"), (2, "Tiny\t2\t0\ta\tb\n")] {
+		through_text(&mut r, &mut rng, n, t, "edge", "hand", &mut tally);
+	}
 	r.count_n("inside-hypotheses", tally.in_hyp);
 	r.count_n("outside-hypotheses", tally.out_hyp);
+	// 16 shards of equal weight (coqc spends its time reading the case terms): deal the cases,
+	// longest first, round-robin into 16 buckets
+	let mut cs = std::mem::take(&mut r.cases);
+	cs.sort_by_key(|c| std::cmp::Reverse(c.len()));
+	let k = 16;
+	let mut buckets: Vec<Vec<String>> = vec![vec![]; k];
+	for (i, c) in cs.into_iter().enumerate() { buckets[i % k].push(c); }
+	r.shard_size = buckets[0].len().max(1);
+	r.cases = buckets.concat();
 	Ok(r)
 }
 
